@@ -360,12 +360,7 @@ func r18h(c *an.Ctx) {
 			}
 			isRecon := false
 			for _, a := range call.Call.Args {
-				for _, l := range an.BackSlice(a, an.SliceOpts{}) {
-					if x, ok := l.Val.(*ssa.Call); ok && strings.HasSuffix(an.CalleeName(&x.Call), "schedulerState).reconciliationCall") {
-						isRecon = true
-					}
-				}
-				if x, ok := an.Strip(a).(*ssa.Call); ok && strings.HasSuffix(an.CalleeName(&x.Call), "schedulerState).reconciliationCall") {
+				if reconcileHandler(bh, a) {
 					isRecon = true
 				}
 			}
@@ -438,6 +433,50 @@ func r18i(c *an.Ctx) {
 		c.Ob("core."+name+"|parse-error-aborts", fn.Pos(), ok && n == 1,
 			"%s can return a value although the setting could not be parsed: the core starts with a framework/failover setting nobody chose (a zero failover timeout makes Mesos kill all tasks and forget the framework on the first disconnection)", name)
 	}
+}
+
+// reconcileHandler: v is the handler that requests reconciliation - the literal returned by a same-package
+// constructor (reconciliationCall() style), a function literal, or a (bound) method - recognised by its call of
+// calls.Reconcile.
+func reconcileHandler(bh *ssa.Function, v ssa.Value) bool {
+	sends := func(f *ssa.Function) bool {
+		return f != nil && f.Blocks != nil && len(an.CallsSuffix(f, "scheduler/calls.Reconcile")) > 0
+	}
+	var fns []*ssa.Function
+	x := an.Strip(v)
+	if ct, ok := x.(*ssa.ChangeType); ok {
+		x = an.Strip(ct.X)
+	}
+	switch y := x.(type) {
+	case *ssa.Call:
+		if cal := y.Call.StaticCallee(); cal != nil && cal.Pkg == bh.Pkg {
+			fns = append(fns, cal.AnonFuncs...)
+		}
+	case *ssa.Function:
+		fns = append(fns, y)
+	default:
+		if f := an.ClosureFn(x); f != nil {
+			fns = append(fns, f)
+		}
+	}
+	for _, f := range fns {
+		if sends(f) {
+			return true
+		}
+		if f.Synthetic != "" && f.Blocks != nil {
+			// bound method wrapper: the method it forwards to
+			found := false
+			an.Instrs(f, func(in ssa.Instruction) {
+				if cl, isCall := in.(*ssa.Call); isCall && sends(cl.Call.StaticCallee()) {
+					found = true
+				}
+			})
+			if found {
+				return true
+			}
+		}
+	}
+	return false
 }
 
 func reachFrom(b *ssa.BasicBlock) map[*ssa.BasicBlock]bool {
@@ -553,7 +592,7 @@ func r19g(c *an.Ctx) {
 // R19h: CreateEnvironment answers with the id of the environment it made, also when it failed after having made it:
 // the caller publishes the failure under that id, which is the partition key of every other event about it.
 func r19h(c *an.Ctx) {
-	c.Rule("R19h", "CreateEnvironment: once the environment is registered every return carries its id", 1)
+	c.Rule("R19h", "CreateEnvironment: once the environment exists (made, or registered) every return carries its id", 1)
 	fn := c.MustFn("core/environment", "Manager.CreateEnvironment")
 	if fn == nil {
 		return
@@ -570,10 +609,38 @@ func r19h(c *an.Ctx) {
 		c.Lost("registration of the environment in CreateEnvironment")
 		return
 	}
+	// ... and is known to have been made wherever the result of newEnvironment is established non-nil
+	var envVal ssa.Value
+	for _, ci := range an.CallsSuffix(fn, "core/environment.newEnvironment") {
+		if call, ok := ci.(*ssa.Call); ok && call.Referrers() != nil {
+			for _, ref := range *call.Referrers() {
+				if ex, isEx := ref.(*ssa.Extract); isEx && ex.Index == 0 {
+					envVal = ex
+					// kept in a local cell (captured by a closure later on): the guards test loads of the cell
+					if ex.Referrers() != nil {
+						for _, r2 := range *ex.Referrers() {
+							st, isSt := r2.(*ssa.Store)
+							if !isSt || st.Val != ssa.Value(ex) {
+								continue
+							}
+							if al, isAl := st.Addr.(*ssa.Alloc); isAl && al.Referrers() != nil {
+								for _, r3 := range *al.Referrers() {
+									if ld, isLd := r3.(*ssa.UnOp); isLd && ld.Op == token.MUL {
+										envVal = ld
+										break
+									}
+								}
+							}
+						}
+					}
+				}
+			}
+		}
+	}
 	var bad []string
 	n := 0
 	for _, r := range an.Returns(fn) {
-		if len(r.Results) != 2 || !an.Dominates(reg, r) {
+		if len(r.Results) != 2 || !(an.Dominates(reg, r) || (envVal != nil && an.KnownNonNil(r.Block(), envVal))) {
 			continue
 		}
 		isId := false
